@@ -45,6 +45,9 @@ type caseJ struct {
 	Cache    bool       `json:"cache"`
 	CacheEnc string     `json:"cache_enc"`
 	Gateway  bool       `json:"gateway"`
+	// the gateway MAC was obtained from the real getGatewayMAC (loopback: no default route, so none is due)
+	GatewayLookup bool   `json:"gateway_lookup,omitempty"`
+	LookupMAC     string `json:"lookup_mac,omitempty"`
 	Ranges   [][2]int   `json:"ranges"`
 	Draws    [][2]int64 `json:"draws"`
 	Seed     int64      `json:"seed"`
@@ -127,6 +130,17 @@ func mkFileCase(caseSeed int64) caseJ {
 		var es []tgt.CacheEntry
 		opts.Cache, es, opts.GatewayMAC = tgt.RandCache(r, base, span, r.Intn(8), c.Gateway)
 		c.CacheEnc = hex.EncodeToString(tgt.EncCache(es, opts.GatewayMAC))
+		if !c.Gateway {
+			// no --gwmac: the command asks the cache for the MAC of the default gateway of the interface; an interface
+			// without a default route (loopback) has none, so no gateway MAC is known - whatever else the cache holds
+			if lo, err := net.InterfaceByName("lo"); err == nil {
+				if mac, err := command.VerifGetGatewayMAC(nil, lo, opts.Cache); err == nil {
+					c.GatewayLookup = true
+					opts.GatewayMAC = mac
+					c.LookupMAC = hex.EncodeToString(mac)
+				}
+			}
+		}
 	}
 	if c.Mode == 1 {
 		nr := 1 + r.Intn(3)
@@ -203,6 +217,11 @@ func mkStagesCase(caseSeed int64) caseJ {
 			q = &scan.Request{DstPort: q.DstPort, Err: errs[r.Intn(len(errs))]}
 		case 3:
 			q.Err = errs[r.Intn(len(errs))] // an error request that still carries an address
+		case 4:
+			// an IPv6 destination (accepted from a target file): its own cache key, never another neighbour's
+			v6 := net.ParseIP("2001:db8::1")
+			v6[15] = byte(r.Intn(256))
+			q.DstIP = v6
 		}
 		reqs = append(reqs, q)
 	}
